@@ -3,5 +3,6 @@
 
 pub use crate::grammar_builder::VERIF_REPEAT_K;
 pub use crate::json::verif_exports::{
-    check_number_bounds, rx_float_range, rx_int_range, verif_lexi, Decimal, NumberSchema,
+    check_number_bounds, rx_float_range, rx_int_range, verif_intersect, verif_lexi, Decimal,
+    NumberSchema,
 };
